@@ -25,7 +25,10 @@ Segs   == IF "s" \in Kinds THEN {"LINESTRING(" \o Join(<<v[1],v[2]>>) \o ")" : v
 TriSet == {<<p,q,r>> \in Pts \X Pts \X Pts : Lt(p,q) /\ Lt(q,r) /\ Cross(p,q,r) # 0}
 Tris   == IF "t" \in Kinds THEN {"POLYGON((" \o Join(<<t[1],t[2],t[3],t[1]>>) \o "))" : t \in TriSet} ELSE {}
 MPts   == IF "m" \in Kinds THEN {"MULTIPOINT((" \o S(v[1]) \o "),(" \o S(v[2]) \o "))" : v \in {w \in Pts \X Pts : Lt(w[1],w[2])}} ELSE {}
-Holed  == IF "h" \in Kinds /\ N >= 3 THEN {"POLYGON((0 0,3 0,3 3,0 3,0 0),(1 1,1 2,2 2,2 1,1 1))", "POLYGON((0 0,3 0,3 3,0 3,0 0),(1 1,2 2,2 1,1 1))"} ELSE {}
+Holed  == (IF "h" \in Kinds /\ N >= 3 THEN {"POLYGON((0 0,3 0,3 3,0 3,0 0),(1 1,1 2,2 2,2 1,1 1))", "POLYGON((0 0,3 0,3 3,0 3,0 0),(1 1,2 2,2 1,1 1))"} ELSE {})
+          \cup (IF "h" \in Kinds /\ N >= 4 THEN {"POLYGON((0 0,4 0,0 4,0 0),(1 1,1 2,2 1,1 1))", "POLYGON((4 4,0 4,4 0,4 4),(3 3,3 2,2 3,3 3))",
+                                                  "POLYGON((0 0,4 0,4 4,0 4,0 0),(1 1,1 2,2 1,1 1),(3 3,3 2,2 3,3 3))",
+                                                  "MULTIPOLYGON(((0 0,4 0,0 4,0 0),(1 1,1 2,2 1,1 1)),((4 4,3 4,4 3,4 4)))"} ELSE {})
 Closed == IF "c" \in Kinds THEN {"LINESTRING(" \o Join(<<t[1],t[2],t[3],t[1]>>) \o ")" : t \in TriSet} ELSE {}
 
 RectSet == IF "q" \in Kinds THEN {"POLYGON((" \o Join(<< <<x0,y0>>, <<x1,y0>>, <<x1,y1>>, <<x0,y1>>, <<x0,y0>> >>) \o "))" :
